@@ -1513,13 +1513,62 @@ fn resp_eq(r: &Resp, m: &Model) -> Option<String> {
 
 /// check a list of responses (each = version, code, calls); `with_cl` marks sequences that
 /// used set_content_length (exact bytes only)
+/// accepts `room` bytes in all, then fails every write with a non-interrupt error
+struct FailSink {
+    out: Vec<u8>,
+    room: usize,
+    chunk: usize,
+}
+
+impl Write for FailSink {
+    fn write(&mut self, buf: &[u8]) -> std::io::Result<usize> {
+        if buf.is_empty() {
+            return Ok(0);
+        }
+        if self.room == 0 {
+            return Err(std::io::Error::from(std::io::ErrorKind::BrokenPipe));
+        }
+        let k = buf.len().min(self.room).min(self.chunk.max(1));
+        self.out.extend_from_slice(&buf[..k]);
+        self.room -= k;
+        Ok(k)
+    }
+    fn flush(&mut self) -> std::io::Result<()> {
+        Ok(())
+    }
+}
+
 fn c05_check(items: &[(u8, u16, Vec<Call>)], sink_plan: &[u8]) -> Result<(), Fail> {
+    c05_check_f(items, sink_plan, &[])
+}
+
+/// `fails[i] = Some((room, chunk))`: before item i is written anywhere else, it is written into
+/// a sink that breaks after `room` bytes; what that sink took is a prefix of the serialization,
+/// and nothing of the failed attempt shows in any later write (of this or another response)
+fn c05_check_f(items: &[(u8, u16, Vec<Call>)], sink_plan: &[u8], fails: &[Option<(usize, usize)>]) -> Result<(), Fail> {
     let mut concat = Vec::new();
     let mut models = Vec::new();
     let mut delimited = true;
-    for (v, code, calls) in items {
+    for (idx, (v, code, calls)) in items.iter().enumerate() {
         let real = build_real(*v, *code, calls);
         let model = build_model(*v, *code, calls);
+        if let Some(Some((room, chunk))) = fails.get(idx) {
+            let want = model.bytes();
+            let mut fs = FailSink { out: Vec::new(), room: *room, chunk: *chunk };
+            let r = real.write_all(&mut fs);
+            if *room >= want.len() {
+                if r.is_err() || fs.out != want {
+                    return Err(Fail::new("C05:sink", format!("write_all into a sink with room for everything: result {:?}, {} of {} bytes", r.map_err(|e| e.kind()), fs.out.len(), want.len())));
+                }
+            } else {
+                if r.is_ok() {
+                    return Err(Fail::new("C05:sink", format!("write_all reports success although the sink broke after {} of {} bytes", room, want.len())));
+                }
+                if fs.out[..] != want[..fs.out.len().min(want.len())] || fs.out.len() > want.len() {
+                    return Err(Fail::new("C05:sink", format!("bytes accepted by a sink that broke after {} bytes are not a prefix of the serialization: \"{}\"", room, esc(&fs.out))));
+                }
+            }
+        }
         let mut out = Vec::new();
         real.write_all(&mut out).map_err(|e| Fail::new("C05:write", format!("write_all into a Vec failed: {}", e)))?;
         let want = model.bytes();
@@ -1601,7 +1650,17 @@ fn c05_build(input: &Input, obs: &mut Obs) -> Result<(), Fail> {
     }
     let plan_len = s.below(12);
     let plan: Vec<u8> = (0..plan_len).map(|_| s.u8()).collect();
-    c05_check(&items, &plan)?;
+    // now and then a write of one of the responses fails part-way first (a client went away)
+    let mut fails: Vec<Option<(usize, usize)>> = Vec::new();
+    if s.chance(60) {
+        for _ in 0..items.len() {
+            fails.push(if s.chance(110) { Some((s.weighted_n(200), [1usize, 7, 4096][s.below(3)])) } else { None });
+        }
+        if fails.iter().any(|f| f.is_some()) {
+            obs.label("failed_write_before");
+        }
+    }
+    c05_check_f(&items, &plan, &fails)?;
     let ncalls: usize = items.iter().map(|i| i.2.len()).sum();
     let special_body = items.iter().any(|i| i.2.iter().any(|c| matches!(c, Call::SetBody(b) if find_sub(b, b"\r\n\r\n").is_some() || b.starts_with(b"HTTP/"))));
     obs.nontrivial = ncalls >= 2 || special_body || items.len() >= 2;
@@ -2100,19 +2159,128 @@ fn c14_lengths_enum(tier: Tier, shard: u64, nshards: u64, f: &mut dyn FnMut(&[u6
     }
 }
 
+/// one line of every length up to the window (and just beyond), fed with a read boundary before,
+/// inside and after its terminator: params = [kind, n]
+/// kind 0: the request line (long URI); 1: a header line in the middle of the block; 2: the last
+/// header line; 3: a header line right behind a body-less pipelined request (the line does not
+/// start at the beginning of the window)
+fn c14_linelen(input: &Input, obs: &mut Obs) -> Result<(), Fail> {
+    let p = input.params();
+    let kind = p[0];
+    let n = p[1] as usize;
+    let mut cnt = 0u64;
+    let mut slice: Vec<u8> = Vec::new();
+    let start;
+    let line = |prefix: &str, suffix: &str, n: usize| -> Option<Vec<u8>> {
+        let fixed = prefix.len() + suffix.len();
+        if n < fixed + 1 {
+            return None;
+        }
+        let mut l = prefix.as_bytes().to_vec();
+        l.extend(std::iter::repeat(b'p').take(n - fixed));
+        l.extend_from_slice(suffix.as_bytes());
+        Some(l)
+    };
+    match kind {
+        0 => {
+            let l = match line("GET /", " HTTP/1.1", n) {
+                Some(l) => l,
+                None => return Ok(()),
+            };
+            start = 0;
+            slice.extend_from_slice(&l);
+            slice.extend_from_slice(b"\r\nX-A: b\r\n\r\n");
+        }
+        1 | 2 => {
+            let l = match line("X-Pad: ", "", n) {
+                Some(l) => l,
+                None => return Ok(()),
+            };
+            slice.extend_from_slice(b"PUT /a HTTP/1.1\r\n");
+            if kind == 1 {
+                start = slice.len();
+                slice.extend_from_slice(&l);
+                slice.extend_from_slice(b"\r\nContent-Length: 3\r\n\r\nabc");
+            } else {
+                slice.extend_from_slice(b"Content-Length: 3\r\n");
+                start = slice.len();
+                slice.extend_from_slice(&l);
+                slice.extend_from_slice(b"\r\n\r\nabc");
+            }
+        }
+        _ => {
+            let l = match line("Accept: ", "", n) {
+                Some(l) => l,
+                None => return Ok(()),
+            };
+            slice.extend_from_slice(b"GET / HTTP/1.0\r\n");
+            start = slice.len();
+            slice.extend_from_slice(&l);
+            slice.extend_from_slice(b"\r\n\r\n");
+        }
+    }
+    let cr = start + n;
+    let mid = start + n / 2;
+    let cutsets: [Vec<usize>; 8] = [
+        vec![],
+        vec![cr],
+        vec![cr + 1],
+        vec![cr + 2],
+        vec![mid, cr],
+        vec![mid, cr + 1],
+        vec![mid, cr + 2],
+        vec![start, cr + 1],
+    ];
+    for cuts in cutsets.iter() {
+        for idle in [false, true] {
+            if cuts.is_empty() && idle {
+                continue;
+            }
+            let mut o = Obs::default();
+            if cuts.is_empty() {
+                c14_check(&slice, &mut o)?;
+            } else {
+                c14_check_sched(&slice, cuts, idle, &mut o)?;
+            }
+            cnt += 1;
+        }
+    }
+    obs.extra_evals = cnt.saturating_sub(1);
+    obs.extra_nontrivial = cnt;
+    if obs.want_render {
+        obs.render = format!("line kind {} of {} bytes; read boundaries before/inside/after its CR LF, with and without an earlier mid-line boundary and an idle read", kind, n);
+    }
+    Ok(())
+}
+
+fn c14_linelen_enum(_tier: Tier, shard: u64, nshards: u64, f: &mut dyn FnMut(&[u64]) -> bool) {
+    let b = buf_size() as u64;
+    let mut c = 0u64;
+    for kind in 0..4u64 {
+        for n in 1..=b + 3 {
+            c += 1;
+            if c % nshards == shard && !f(&[kind, n]) {
+                return;
+            }
+        }
+    }
+}
+
 fn c14_plan(tier: Tier) -> Vec<Job> {
     let q = tier == Tier::Quick;
     vec![
         Job { sub: "diff", kind: JobKind::Pbt { cases: if q { 500_000 } else { 8_000_000 }, max_len: 300 }, smallbuf: false },
         Job { sub: "edit", kind: JobKind::Enum { f: c14_edit_enum, bound: "4 canonical slices x every byte position x {delete, replace by each of the 256 byte values, insert each of the 256 byte values}" }, smallbuf: false },
         Job { sub: "lengths", kind: JobKind::Enum { f: c14_lengths_enum, bound: "3 methods x every Content-Length n in 0..3199 (thorough: 0..12799) x body of n-1, n, n+1 bytes" }, smallbuf: false },
+        Job { sub: "linelen", kind: JobKind::Enum { f: c14_linelen_enum, bound: "4 line kinds x every line length 1..B+3 x 8 placements of read boundaries around the line's CR LF x idle read or not (B=1024)" }, smallbuf: false },
+        Job { sub: "linelen", kind: JobKind::Enum { f: c14_linelen_enum, bound: "the same with B=32" }, smallbuf: true },
     ]
 }
 
 pub fn c14() -> PropDef {
     PropDef {
         id: "C14",
-        subs: vec![("diff", c14_diff), ("edit", c14_edit), ("raw", crate::props::raw::c14_raw), ("lengths", c14_lengths)],
+        subs: vec![("diff", c14_diff), ("edit", c14_edit), ("raw", crate::props::raw::c14_raw), ("lengths", c14_lengths), ("linelen", c14_linelen)],
         plan: c14_plan,
         rule: "case = one byte slice from the request grammar with corruptions, with/without trailing bytes or truncation; oracle = differential between Request::try_from and an HttpConnection fed the slice (payload limit 2^32-1, whole-window reads): forward (accepted => same first request), converse (exactly one request with nothing left => accepted with the same fields, except GET declaring a body), and the max_len rule at len-1/len/len+1; REF referees comparability (line limit); non-trivial = the slice has >=1 byte after its first CRLF beyond the blank line",
         assumptions: vec!["slices whose first request has a line longer than the receive window are outside the comparable set (the statement says 'within the line and payload limits')"],
